@@ -5,7 +5,7 @@ def check(ctx):
     S.run_tables(ctx, 'C14', [('WFQ', '__init__'), ('WFQ', 'update_vtime'), ('WFQ', 'reset_vtime'), ('WFQ', 'run'),
                               ('WFQ', 'put'), ('VC', '__init__'), ('VC', 'run'), ('VC', 'put'),
                               ('Scheduler', 'send_packet'), ('Scheduler', 'add_packet_to_queue')])
-    R.run_tables(ctx, 'C14', [('PriorityStore', '_do_put'), ('PriorityStore', '_do_get'), ('PriorityItem', '__lt__')])
+    R.run_tables(ctx, 'C14', [('PriorityStore', '_do_put@unbounded'), ('PriorityStore', '_do_get'), ('PriorityItem', '__lt__')])
     elements.stamp_keys(ctx, 'C14')
     keydomains.check(ctx, 'C14', only=('WFQ', 'VC'))
     elements.class_method_sets(ctx, 'C14', only=('WFQ', 'VC'))
